@@ -29,11 +29,12 @@ def _err(code, path=None, path2=None):
 
 
 class Inode:
-    __slots__ = ("ino", "kind", "data", "children", "atime", "mtime", "ctime", "nlink", "mode", "opens", "gen")
+    __slots__ = ("ino", "kind", "data", "children", "atime", "mtime", "ctime", "nlink", "mode", "opens", "gen", "target")
 
     def __init__(self, ino, kind, now, mode):
         self.ino = ino
-        self.kind = kind  # 'f' | 'd'
+        self.kind = kind  # 'f' | 'd' | 'l' (symbolic link: .target holds the text of the link)
+        self.target = None
         self.data = bytearray() if kind == "f" else None
         self.children = {} if kind == "d" else None
         self.atime = self.mtime = self.ctime = now
@@ -99,31 +100,97 @@ class SimFS:
         rel = path[len(PREFIX):]
         return [p for p in rel.split("/") if p]
 
-    def _lookup(self, path, want_parent=False):
+    def _walk(self, path, follow_last=True):
+        """Resolve a path -> (parent directory node, last name, node or None).  Symbolic links in directory
+        components are always followed, a link in the last component only if follow_last.  With follow_last and
+        a dangling last link the result names the place the link points at (parent, name, None) - which is where
+        open(..., O_CREAT) creates the file."""
         parts = self.split(path)
-        node = self.root
-        if want_parent:
-            if not parts:
-                raise _err(errno.EBUSY, path)
-            walk, last = parts[:-1], parts[-1]
-        else:
-            walk, last = parts, None
-        for p in walk:
-            if node.kind != "d":
+        if not parts:
+            return None, None, self.root
+        stack = [self.root]  # directory nodes from the root down to the current directory
+        hops = 0
+        i = 0
+        while True:
+            p = parts[i]
+            cur = stack[-1]
+            last = i == len(parts) - 1
+            if p == "..":
+                if len(stack) > 1:
+                    stack.pop()
+                if last:
+                    # (only reachable through a link target ending in '..')
+                    node = stack[-1]
+                    if len(stack) > 1:
+                        par = stack[-2]
+                        name = next(n for n, c in par.children.items() if c is node)
+                        return par, name, node
+                    return None, None, node
+                i += 1
+                continue
+            if cur.kind != "d":
                 raise _err(errno.ENOTDIR, path)
-            nxt = node.children.get(p)
+            nxt = cur.children.get(p)
             if nxt is None:
+                if last:
+                    return cur, p, None
                 raise _err(errno.ENOENT, path)
-            node = nxt
-        if want_parent:
-            if node.kind != "d":
+            if nxt.kind == "l" and (not last or follow_last):
+                hops += 1
+                if hops > 40:
+                    raise _err(errno.ELOOP, path)
+                tgt = nxt.target
+                if tgt.startswith("/"):
+                    if tgt != PREFIX and not tgt.startswith(PREFIX + "/"):
+                        raise _err(errno.ENOENT, path)  # points outside the simulated world: nothing there
+                    tparts = [x for x in tgt[len(PREFIX):].split("/") if x and x != "."]
+                    stack = [self.root]
+                else:
+                    tparts = [x for x in tgt.split("/") if x and x != "."]
+                parts = tparts + parts[i + 1:]
+                i = 0
+                if not parts:
+                    node = stack[-1]
+                    if len(stack) > 1:
+                        par = stack[-2]
+                        name = next(n for n, c in par.children.items() if c is node)
+                        return par, name, node
+                    return None, None, node
+                continue
+            if last:
+                return cur, p, nxt
+            if nxt.kind != "d":
                 raise _err(errno.ENOTDIR, path)
-            return node, last
+            stack.append(nxt)
+            i += 1
+
+    def _lookup(self, path, want_parent=False, follow=True):
+        """want_parent: (directory node, last name) WITHOUT following a link in the last component (unlink, rename,
+        mkdir ... act on the link itself).  Otherwise the node the path names, following links (follow=False: lstat)."""
+        if want_parent:
+            parent, name, _node = self._walk(path, follow_last=False)
+            if parent is None:
+                raise _err(errno.EBUSY, path)
+            return parent, name
+        parent, name, node = self._walk(path, follow_last=follow)
+        if node is None:
+            raise _err(errno.ENOENT, path)
         return node
 
+    def _lookup_for_open(self, path):
+        """(parent, name, node or None) of the place the path names after following links (also a dangling last one)"""
+        parent, name, node = self._walk(path, follow_last=True)
+        if parent is None:
+            raise _err(errno.EISDIR, path)
+        return parent, name, node
+
     def _stat_result(self, node):
-        mode = (_stat.S_IFDIR if node.kind == "d" else _stat.S_IFREG) | node.mode
-        size = len(node.data) if node.kind == "f" else 4096
+        if node.kind == "l":
+            mode = _stat.S_IFLNK | 0o777
+            size = len(node.target.encode())
+        else:
+            mode = (_stat.S_IFDIR if node.kind == "d" else _stat.S_IFREG) | node.mode
+            size = len(node.data) if node.kind == "f" else 4096
         a, m, c = node.atime, node.mtime, node.ctime
         return os.stat_result((
             mode, node.ino, DEV, node.nlink, 0, 0, size,
@@ -152,7 +219,29 @@ class SimFS:
         self.hook("stat", path)
         return self._stat_result(self._lookup(path))
 
-    lstat = stat
+    def lstat(self, path):
+        self.hook("stat", path)
+        return self._stat_result(self._lookup(path, follow=False))
+
+    def symlink(self, target, path):
+        self.hook("symlink", path, mut=True)
+        parent, name = self._lookup(path, want_parent=True)
+        if name in parent.children:
+            raise _err(errno.EEXIST, target, path)
+        now = self.clock.stamp()
+        node = Inode(self._next_ino(), "l", now, 0o777)
+        node.data = None
+        node.target = str(target)
+        parent.children[name] = node
+        parent.mtime = parent.ctime = now
+        self.mutations += 1
+
+    def readlink(self, path):
+        self.hook("stat", path)
+        node = self._lookup(path, follow=False)
+        if node.kind != "l":
+            raise _err(errno.EINVAL, path)
+        return node.target
 
     def access(self, path, mode):
         self.hook("stat", path)
@@ -211,7 +300,8 @@ class SimFS:
             raise _err(errno.ENOENT, path)
         if node.kind == "d":
             raise _err(errno.EISDIR, path)
-        self.unlink_log.append((posixpath.normpath(path), node.ino, node.atime, node.mtime, len(node.data), "unlink"))
+        self.unlink_log.append((posixpath.normpath(path), node.ino, node.atime, node.mtime,
+                                len(node.data) if node.data is not None else 0, "unlink"))
         del parent.children[name]
         node.nlink -= 1
         now = self.clock.stamp()
@@ -238,7 +328,7 @@ class SimFS:
         old = dp.children.get(dn)
         if old is node:
             return
-        if old is not None and posixpath.normpath(src).startswith(posixpath.normpath(dst) + "/"):
+        if old is not None and old.kind == "d" and posixpath.normpath(src).startswith(posixpath.normpath(dst) + "/"):
             raise _err(errno.ENOTEMPTY, src, dst)
         if old is not None:
             if old.kind == "d" and node.kind != "d":
@@ -247,8 +337,9 @@ class SimFS:
                 raise _err(errno.ENOTDIR, src, dst)
             if old.kind == "d" and old.children:
                 raise _err(errno.ENOTEMPTY, src, dst)
-            if old.kind == "f":
-                self.unlink_log.append((posixpath.normpath(dst), old.ino, old.atime, old.mtime, len(old.data), "replaced"))
+            if old.kind in ("f", "l"):
+                self.unlink_log.append((posixpath.normpath(dst), old.ino, old.atime, old.mtime,
+                                        len(old.data) if old.data is not None else 0, "replaced"))
                 old.nlink -= 1
             else:
                 dp.nlink -= 1
@@ -265,7 +356,7 @@ class SimFS:
 
     def link(self, src, dst):
         self.hook("link", src, mut=True)
-        node = self._lookup(src)
+        node = self._lookup(src, follow=False)  # link(2) does not follow a symbolic link: it links the link itself
         dp, dn = self._lookup(dst, want_parent=True)
         if dn in dp.children:
             raise _err(errno.EEXIST, src, dst)
@@ -278,9 +369,9 @@ class SimFS:
         dp.mtime = dp.ctime = now
         self.mutations += 1
 
-    def utime(self, path, times=None, ns=None):
+    def utime(self, path, times=None, ns=None, follow=True):
         self.hook("utime", path, mut=True)
-        node = self._lookup(path)
+        node = self._lookup(path, follow=follow)
         now = self.clock.stamp()
         if ns is not None:
             node.atime, node.mtime = int(ns[0]), int(ns[1])
@@ -319,8 +410,12 @@ class SimFS:
         self.hook(kind, path, mut=(create or trunc))
         if self.fd_limit is not None and len(self.open_files) >= self.fd_limit:
             raise _err(errno.EMFILE, path)
-        parent, name = self._lookup(path, want_parent=True)
-        node = parent.children.get(name)
+        if create and excl:
+            # O_EXCL does not follow a link in the last component: an existing link (even dangling) is EEXIST
+            parent, name = self._lookup(path, want_parent=True)
+            node = parent.children.get(name)
+        else:
+            parent, name, node = self._lookup_for_open(path)
         now = self.clock.stamp()
         if node is None:
             if not create:
@@ -547,6 +642,14 @@ class SimFS:
         node.atime = node.mtime = node.ctime = now
         return node
 
+    def h_symlink(self, target, path):
+        parent, name = self._lookup(path, want_parent=True)
+        node = Inode(self._next_ino(), "l", self.clock.stamp(), 0o777)
+        node.data = None
+        node.target = str(target)
+        parent.children[name] = node
+        return node
+
     def h_mkdirs(self, path):
         node = self.root
         for p in self.split(path):
@@ -567,6 +670,8 @@ class SimFS:
                 out.append((p, "d", 0, 0, 0, b"", node.ino, 0))
                 for n in sorted(node.children):
                     rec(p + "/" + n, node.children[n])
+            elif node.kind == "l":
+                out.append((p, "l", 0, node.atime, node.mtime, node.target.encode(), node.ino, 0))
             else:
                 out.append((p, "f", len(node.data), node.atime, node.mtime, bytes(node.data), node.ino, node.gen))
 
@@ -686,14 +791,24 @@ class SimDirEntry:
         self._fs = fs
         self._node = node
 
+    def _resolved(self, follow_symlinks):
+        if self._node.kind == "l" and follow_symlinks:
+            try:
+                return self._fs._lookup(self.path)
+            except FileNotFoundError:
+                return None  # a dangling link is neither a file nor a directory (other errors, e.g. ELOOP, surface)
+        return self._node
+
     def is_dir(self, *, follow_symlinks=True):
-        return self._node.kind == "d"
+        n = self._resolved(follow_symlinks)
+        return n is not None and n.kind == "d"
 
     def is_file(self, *, follow_symlinks=True):
-        return self._node.kind == "f"
+        n = self._resolved(follow_symlinks)
+        return n is not None and n.kind == "f"
 
     def is_symlink(self):
-        return False
+        return self._node.kind == "l"
 
     def is_junction(self):
         return False
@@ -702,6 +817,8 @@ class SimDirEntry:
         return self._node.ino
 
     def stat(self, *, follow_symlinks=True):
+        if self._node.kind == "l" and follow_symlinks:
+            return self._fs._stat_result(self._fs._lookup(self.path))
         return self._fs._stat_result(self._node)
 
     def __fspath__(self):
